@@ -102,9 +102,122 @@ Definition in_domain (c : case) : bool :=
   match c with
   | CGet k v p _ _ _ _ _ => get_ok k p
   | CInsert k v p kx x _ _ _ _ _ => ins_ok false k p && wf_value v
-  | CRemove _ _ _ _ _ _ _ _ _ _ => false
+  | CRemove k v p cpt _ _ _ _ _ _ => remove_ok k p cpt && wf_value v
   | CUnion a b v _ _ _ _ => union_compat a b
   | CMerge a b ow _ _ _ _ _ _ _ _ => negb ow && union_compat a b
   | CSuperset a b v _ _ _ => no_exact_any a
   end.
 Definition domain_ok (c : case) : bool := implb (in_domain c) (oracle c).
+
+(* ---------- known finding classes (known_findings/C19.json) ----------
+   `finding_class c` = 0 when c lies inside the domain on which Properties/C19.v proves the operation
+   sound; otherwise the number of the known class the first failing side condition belongs to:
+     1  an exact unknown that admits values meets a non-`any` infinite (json) unknown in a merge
+     2  insert at a negative index below the front of an array of exactly known length
+     3  insert coerces a slot that need not hold the container, while the kind's container has
+        required (or non-null) known entries
+     4  insert pads over an optional known element that does not admit null
+     5  at_path with a negative index into an array with optional known elements
+     6  is_superset with an exact unknown whose kind has every state
+     7  remove of an array element with more than one known element behind it (remove_shift)
+     8  remove inside a field / element that is not known: the modification is discarded
+     9  remove with compaction through more than one segment
+     10 remove with a negative index into an array of unknown length or with optional elements
+     12 merge with CollisionStrategy::Overwrite
+     13 insert at a negative index into an array with unknown elements
+     14 insert at a negative index where the kind does not determine the array length
+     99 outside the domain for a reason not listed (never expected) *)
+Definition first_nz (a b : N) : N := if N.eqb a 0 then b else a.
+
+Fixpoint ins_reason (fresh : bool) (k : kind) (p : path) {struct p} : N :=
+  match p with
+  | [] => 0
+  | SField f :: p' =>
+      let c := match obj_of k with Some c => c | None => coll_empty end in
+      let cur := coll_at bytes_eqb c f in
+      if fresh || negb (is_some (obj_of k)) then
+        (if others_optional bytes_eqb c f then ins_reason true cur p' else 3)
+      else if negb (is_exact k || others_optional bytes_eqb c f) then 3
+      else first_nz (ins_reason false cur p')
+                    (if is_exact k && negb (p_undefined (prims_of cur)) then 0 else ins_reason true cur p')
+  | SIndex i :: p' =>
+      let c := match arr_of k with Some c => c | None => coll_empty end in
+      if (i <? 0)%Z then
+        if contains_any_defined (unknown_kind c) then 13
+        else if fresh || negb (is_exact k) || negb (is_some (arr_of k)) || negb (all_required c) || negb (all_defined c) then 14
+        else if negb (Nat.leb (Z.to_nat (- i)) (known_len c)) then 2
+        else ins_reason false (coll_at Nat.eqb c (known_len c - Z.to_nat (- i))) p'
+      else
+        let idx := Z.to_nat i in
+        let cur := coll_at Nat.eqb c idx in
+        if fresh || negb (is_some (arr_of k)) then
+          (if idx_fresh_ok c idx then ins_reason true cur p' else 3)
+        else if negb (idx_pad_ok c idx) then 4
+        else if negb (is_exact k || idx_fresh_ok c idx) then 3
+        else first_nz (ins_reason false cur p')
+                      (if is_exact k && negb (p_undefined (prims_of cur)) then 0 else ins_reason true cur p')
+  end.
+
+Fixpoint get_reason (k : kind) (p : path) {struct p} : N :=
+  if is_never k then 0 else
+  match p with
+  | [] => 0
+  | s :: p' =>
+      if seg_ok k s then get_reason (at_seg k s) p'
+      else match s, arr_of k with
+           | SIndex _, Some c => if all_required c then 1 else 5
+           | _, _ => 99
+           end
+  end.
+
+Fixpoint rm_reason (k : kind) (p : path) {struct p} : N :=
+  if is_never k then 0 else
+  match p with
+  | [] => 0
+  | SField f :: p' =>
+      match obj_of k with
+      | None => 0
+      | Some c =>
+          match p' with
+          | [] => if maybe_ok_o c f then 0 else 1
+          | _ :: _ =>
+              match aget bytes_eqb (known c) f with
+              | Some child => rm_reason child p'
+              | None => if contains_any_defined (unknown_kind c) then 8 else 0
+              end
+          end
+      end
+  | SIndex i :: p' =>
+      match arr_of k with
+      | None => 0
+      | Some c =>
+          match rm_index c i with
+          | None => 10
+          | Some None => 0
+          | Some (Some idx) =>
+              match p' with
+              | [] => if negb (shift_ok c idx) then 7 else if maybe_ok_a c idx then 0 else 1
+              | _ :: _ =>
+                  match aget Nat.eqb (known c) idx with
+                  | Some child => rm_reason child p'
+                  | None => if contains_any_defined (unknown_kind c) then 8 else 0
+                  end
+              end
+          end
+      end
+  end.
+
+Definition or99 (r : N) : N := if N.eqb r 0 then 99%N else r.
+
+Definition finding_class (c : case) : N :=
+  if in_domain c then 0 else
+  match c with
+  | CGet k v p _ _ _ _ _ => or99 (get_reason k p)
+  | CInsert k v p kx x _ _ _ _ _ => if wf_value v then or99 (ins_reason false k p) else 99
+  | CRemove k v p cpt _ _ _ _ _ _ =>
+      if negb (wf_value v) then 99
+      else if cpt && negb (Nat.leb (length p) 1) then 9 else or99 (rm_reason k p)
+  | CUnion a b v _ _ _ _ => 1
+  | CMerge a b ow _ _ _ _ _ _ _ _ => if ow then 12 else 1
+  | CSuperset a b v _ _ _ => 6
+  end.
